@@ -226,6 +226,41 @@ pub fn run(run: &mut Run) {
             }
         }
     }
+    // nested unary minus: every negation is applied (the inner one may overflow)
+    run.sub("neg-nested");
+    let nested: Vec<(String, Program, usize)> = ["-(-a)", "-(-(-a))", "-(-(a))", "0 - (-a)", "-(0 - a)", "-(-a) + 0", "[-(-a)][0]"]
+        .iter()
+        .map(|s| (s.to_string(), Program::compile(s).unwrap(), s.matches('-').count()))
+        .collect();
+    for &x in is.iter() {
+        for (src, p, negs) in nested.iter() {
+            if !run.take() {
+                continue;
+            }
+            let mut ctx = Context::default();
+            ctx.add_variable_from_value("a", Value::Int(x));
+            let got = subj::exec(p, &ctx);
+            run.trans(1);
+            run.validated();
+            run.nontrivial();
+            // any negation (or 0 - a) of i64::MIN overflows; MIN is the only value whose negation does
+            let overflow = x == i64::MIN;
+            let want = if negs % 2 == 0 { x as i128 } else { -(x as i128) };
+            run.class(&format!("neg-nested:{}", got.tag()), || json!({"src": src, "a": x, "got": got.show()}));
+            let ok = match &got {
+                Out::Val(MV::Int(g)) => !overflow && *g as i128 == want,
+                Out::Err(e) => overflow && ec_ok(&EC::Overflow, e),
+                _ => false,
+            };
+            if !ok {
+                run.fail(
+                    &format!("C08|neg-nested|expect={}|got={}", if overflow { "overflow" } else { "value" }, got.tag()),
+                    format!("{} with a={} : expected {}, got {}", src, x, if overflow { "overflow error".to_string() } else { want.to_string() }, got.show()),
+                    json!({"src": src, "a": x}),
+                );
+            }
+        }
+    }
     // unary minus on uint is an error, never a wrapped number
     run.sub("neg-uint");
     for &x in us.iter() {
